@@ -24,8 +24,10 @@ RULE = (
 ASSUMPTIONS = ["dihedral / alternating conventions for n <= 2 as stated in the library's docstrings", "Greene brute force up to length 7 (8 thorough)"]
 REQUIRED = ["calls.Perm.stack_sort", "calls.Perm.pop_stack_sort", "calls.Perm.bubble_sort", "calls.Perm.quick_sort", "calls.Perm.west_2_stack_sortable",
             "calls.Bijections.simion_and_schmidt", "calls.pp.baxter", "calls.pp.simsun", "calls.pp.yt_perm_avoids_22", "ss.bijection_levels",
-            "ss.rejected", "characterisation.checked", "derived.images", "faults.injected", "dihedral.affine_near_members", "bkv.checked"]
+            "ss.rejected", "characterisation.checked", "derived.images", "faults.injected", "dihedral.affine_near_members", "bkv.checked", "ss.long_members", "interpreter.asserts_disabled", "devices.long_inputs"]
 MIN_NONTRIVIAL = 3000
+RECURSIVE_DEVICES = {"stack_sort", "stack_sortable", "west_2_stack_sortable", "west_3_stack_sortable", "count_stack_sorts", "bubble_sort", "bubble_sortable",
+                     "quick_sort", "quick_sortable"}
 BKV_PATTERNS = [(), ((0, 1),), ((1, 0),), ((0, 1, 2),), ((1, 2, 0),), ((0, 2, 1),), ((2, 1, 0),), ((0, 1), (1, 0)), ((0, 1, 2), (2, 1, 0))]
 CTX = None
 MON = None
@@ -45,7 +47,11 @@ def expect(label, oracle, ret_perm=False):
         want = oracle(p)
         got = tuple(res) if ret_perm and exc is None else res
         if exc is not None or got != want or (ret_perm and type(res) is not Perm):
-            report("perm", [list(p)], f"{label}({p}) = {res!r} ({exc!r}), definition gives {want!r}")
+            known = None
+            if isinstance(exc, RecursionError) and label in RECURSIVE_DEVICES and SO.recursion_depth_needed(label, p) >= 900:
+                known = "sorting-recursion-depth"
+            shown = p if len(p) <= 40 else p[:12] + ("...", len(p), "entries")
+            CTX.fail("perm", [list(p)], f"{label}({shown}) = {res!r} ({exc!r}), definition gives {want if len(p) <= 40 else '...'!r}", known)
         elif want is True or (ret_perm and want != p) or (isinstance(want, int) and not isinstance(want, bool) and want > 0):
             CTX.nt((label, p))
     return post
@@ -85,7 +91,8 @@ def post_ss(args, kwargs, res, exc):
     CTX.ev()
     dom_pat = (0, 2, 1) if inverse else (0, 1, 2)
     img_pat = (0, 1, 2) if inverse else (0, 2, 1)
-    if C.contains(p, dom_pat):
+    contains = C.contains if len(p) <= 12 else SO.contains3
+    if contains(p, dom_pat):
         CTX.count("ss.rejected")
         if not isinstance(exc, ValueError):
             report("ss", [list(p), bool(inverse)], f"simion_and_schmidt({p}, inverse={inverse}) outside the domain gave {res!r} ({exc!r}), want ValueError")
@@ -95,7 +102,7 @@ def post_ss(args, kwargs, res, exc):
         return
     q = tuple(res)
     lm = SO.ltr_minima(p)
-    if C.contains(q, img_pat) or SO.ltr_minima(q) != lm or any(q[i] != p[i] for i in lm):
+    if contains(q, img_pat) or SO.ltr_minima(q) != lm or any(q[i] != p[i] for i in lm):
         report("ss", [list(p), bool(inverse)], f"simion_and_schmidt({p}, inverse={inverse}) = {q}: not in the image class or left-to-right minima moved")
     elif q != p:
         CTX.nt(("ss", p, bool(inverse)))
@@ -199,6 +206,55 @@ def chk_ss(ctx, p, inverse):
         report("ss", [p, inverse], f"inverse does not undo the map: {P!r} -> {Q!r} -> {back!r}")
 
 
+def chk_ss_long(ctx, n, seed):
+    """long members of both domains (lengths in the hundreds and above 1000), structured so that they really are members"""
+    import random
+
+    rng = random.Random(seed)
+    dec = list(range(n - 1, -1, -1))
+    a = sorted(rng.sample(range(n), n // 2), reverse=True)
+    b = sorted(set(range(n)) - set(a), reverse=True)
+    merged = []
+    while a or b:
+        src = a if (a and (not b or rng.random() < 0.5)) else b
+        merged.append(src.pop(0))
+    members123 = [dec, [n - 2, n - 1] + list(range(n - 3, -1, -1))]           # unions of two decreasing sequences
+    if n <= 320:  # (the library's own domain test is cubic on a random union of two decreasing sequences)
+        members123.append(merged)
+    blocks = [v for i in range(n - 2, -1, -2) for v in (i, i + 1)] + ([0] if n % 2 else [])  # skew sum of 12-blocks: avoids 132
+    members132 = [dec, [n - 2, n - 1] + list(range(n - 3, -1, -1)), blocks[:n] if sorted(blocks[:n]) == list(range(n)) else dec]
+    if n > 700:  # (the library's own domain test needs seconds per call at these lengths: one member per direction)
+        members123, members132 = members123[:1], members132[1:2]
+    for m in members123:
+        chk_ss(ctx, m, False)
+    for m in members132:
+        chk_ss(ctx, m, True)
+    for m in (list(range(n)), [0, 2, 1] + list(range(3, n))):  # not members of either / of the second domain
+        chk_ss(ctx, m, rng.random() < 0.5)
+    ctx.count("ss.long_members")
+
+
+def chk_devices_long(ctx, n, seed):
+    """the sorting devices on long inputs: random ones (shallow recursion) and (near-)monotone ones (recursion as deep as the input)"""
+    import random
+
+    rng = random.Random(seed)
+    inc, dec = list(range(n)), list(range(n - 1, -1, -1))
+    near = inc[:]
+    for _ in range(3):
+        i = rng.randrange(n - 1)
+        near[i], near[i + 1] = near[i + 1], near[i]
+    for p in (rng.sample(range(n), n), inc, dec, near):
+        P = Perm(p)
+        for op in ("stack_sort", "pop_stack_sort", "bubble_sort", "quick_sort", "stack_sortable", "pop_stack_sortable", "bubble_sortable", "quick_sortable",
+                   "west_2_stack_sortable", "count_pop_stack_sorts"):
+            try:
+                getattr(P, op)()  # judged by the monitors (a RecursionError on input that needs that depth is the known finding)
+            except RecursionError:
+                ctx.count("devices.recursion_errors_seen")
+        ctx.count("devices.long_inputs")
+
+
 def chk_ss_level(ctx, n):
     """bijection 123-avoiders -> 132-avoiders of length n, and the groups helper"""
     src = [t for t in C.all_perms(n) if not C.contains(t, (0, 1, 2))]
@@ -229,7 +285,7 @@ def chk_dihedral_fault(ctx, n, k):
     PP.dihedral(Perm(list(range(1, n)) + [0][:1]) if n > 3 else probe)
 
 
-CHECKS = {"perm": chk_perm, "ss": chk_ss, "sslevel": chk_ss_level, "dihedralfault": chk_dihedral_fault}
+CHECKS = {"deviceslong": chk_devices_long, "sslong": chk_ss_long, "perm": chk_perm, "ss": chk_ss, "sslevel": chk_ss_level, "dihedralfault": chk_dihedral_fault}
 
 
 def plan(tier, seed):
@@ -237,6 +293,9 @@ def plan(tier, seed):
     specs = [{"name": f"perms-{n}-{i}", "kind": "perms", "n": n, "part": i, "parts": parts}
              for n in range(nmax + 1) for parts in [1 if n < 6 else (3 if n == 6 else (16 if n == 7 else (64 if n == 8 else 320)))] for i in range(parts)]
     specs.append({"name": "ss-levels", "kind": "sslevels", "nmax": nmax})
+    # the same level-by-level bijection check in an interpreter started with -O (assert statements compiled away)
+    specs.append({"name": "ss-levels-O", "kind": "sslevels_O", "nmax": 7, "python_flags": ["-O"]})
+    specs.append({"name": "ss-long", "kind": "sslong", "lengths": [300, 640, 1100] if tier == "quick" else [300, 501, 640, 999, 1001, 1100, 2000]})
     specs += [{"name": f"rand-{i}", "kind": "rand", "count": (400 if tier == "quick" else 8000) // 4} for i in range(4)]
     return specs
 
@@ -250,6 +309,25 @@ def run(ctx, spec):
                 chk_ss(ctx, list(p), False)
                 chk_ss(ctx, list(p), True)
         ctx.note(f"exhaustive: S_{spec['n']} part {spec['part']}/{spec['parts']}")
+    elif spec["kind"] == "sslevels_O":
+        ctx.counters["interpreter.asserts_disabled"] = int(not __debug__)
+        for n in range(spec["nmax"] + 1):
+            chk_ss_level(ctx, n)
+        for n in range(4, 9):
+            for _ in range(30):
+                d1 = sorted(rng.sample(range(n), n // 2), reverse=True)
+                d2 = sorted(set(range(n)) - set(d1), reverse=True)
+                m = []
+                while d1 or d2:
+                    src = d1 if (d1 and (not d2 or rng.random() < 0.5)) else d2
+                    m.append(src.pop(0))
+                chk_ss(ctx, m, False)
+        ctx.note("Simion-Schmidt level by level also in an interpreter started with -O")
+    elif spec["kind"] == "sslong":
+        for n in spec["lengths"]:
+            chk_ss_long(ctx, n, rng.randrange(10 ** 9))
+        for n in (400, 700, 1100):
+            chk_devices_long(ctx, n, rng.randrange(10 ** 9))
     elif spec["kind"] == "sslevels":
         for n in range(min(spec["nmax"], 8) + 2):
             chk_ss_level(ctx, n)
